@@ -322,7 +322,6 @@ func (x *Exec) wl(p *PodRec) *WL { return &x.C.WLs[p.WL] }
 // opClosure resolves an op into a closure performing its galaxy-ipam call(s) (nil if the op is a harness-only
 // action or has no candidate) plus a name. Harness-only parts run immediately.
 func (x *Exec) opClosure(op Op, res *OpResult) (string, func()) {
-	w := x.W
 	switch op.K {
 	case "filter", "sched":
 		cands := x.existingPods(func(p *PodRec) bool { return !p.Bound && p.Live() })
@@ -332,45 +331,76 @@ func (x *Exec) opClosure(op Op, res *OpResult) (string, func()) {
 		}
 		p := cands[pick(len(cands), op.A)]
 		res.Pod = p
-		nodes := x.candSet(op.B)
-		pod := w.truthPod(p.Name)
-		return "filter:" + p.Name, func() {
-			res.Before = w.Snap()
-			var ns []corev1.Node
-			for _, c := range nodes {
-				for _, n := range w.Topo.Nodes {
-					if n.Name == c {
-						ns = append(ns, *n.Object())
-					}
+		return "filter:" + p.Name, x.schedFn(p, op, res)
+	case "newsched":
+		// a controller creates a pod and the scheduler schedules it, all while the other tasks of the episode are under way: which
+		// pod it is (possibly a new incarnation of a name whose reservation another task is working on) is decided when the task runs
+		return "newsched", func() {
+			cres := &OpResult{}
+			ck := "create"
+			if op.B%2 == 1 {
+				ck = "createreused"
+			}
+			x.harnessOp(Op{K: ck, A: op.A, B: op.B, C: op.C}, cres)
+			if cres.Pod == nil {
+				res.NoOp = true
+				return
+			}
+			res.Pod = cres.Pod
+			x.schedFn(cres.Pod, Op{K: "sched", B: 63, C: op.C}, res)()
+			res.Info = "created " + cres.Info + " " + res.Info
+		}
+	}
+	return x.opClosure2(op, res)
+}
+
+// schedFn is the filter (and, for "sched", the bind) of pod p.
+func (x *Exec) schedFn(p *PodRec, op Op, res *OpResult) func() {
+	w := x.W
+	nodes := x.candSet(op.B)
+	pod := w.truthPod(p.Name)
+	return func() {
+		res.Before = w.Snap()
+		var ns []corev1.Node
+		for _, c := range nodes {
+			for _, n := range w.Topo.Nodes {
+				if n.Name == c {
+					ns = append(ns, *n.Object())
 				}
 			}
-			out, _, err := w.Plugin.Filter(pod.DeepCopy(), ns)
-			res.Err = err
-			res.Nodes = nil
-			for _, n := range out {
-				res.Nodes = append(res.Nodes, n.Name)
-			}
-			res.Info = fmt.Sprintf("cands=%v", nodes)
-			w.mu.Lock()
-			if err == nil && len(res.Nodes) > 0 {
-				p.Filtered = res.Nodes
-				p.FilterOn = w.PluginGen
-			} else {
-				p.Filtered = nil
-			}
-			w.mu.Unlock()
-			res.After = w.Snap()
-			if op.K == "sched" && err == nil && len(res.Nodes) > 0 {
-				node := res.Nodes[pick(len(res.Nodes), op.C)]
-				res.BeforeBind = w.Snap()
-				res.Err = w.Plugin.Bind(bindArgs(p, node))
-				res.BoundNow = res.Err == nil && p.Bound
-				w.mu.Lock()
-				p.Filtered = nil // a filter result is consumed by one bind attempt; the scheduler filters again before retrying
-				w.mu.Unlock()
-				res.Info += " bind=" + node
-			}
 		}
+		out, _, err := w.Plugin.Filter(pod.DeepCopy(), ns)
+		res.Err = err
+		res.Nodes = nil
+		for _, n := range out {
+			res.Nodes = append(res.Nodes, n.Name)
+		}
+		res.Info = fmt.Sprintf("cands=%v", nodes)
+		w.mu.Lock()
+		if err == nil && len(res.Nodes) > 0 {
+			p.Filtered = res.Nodes
+			p.FilterOn = w.PluginGen
+		} else {
+			p.Filtered = nil
+		}
+		w.mu.Unlock()
+		res.After = w.Snap()
+		if op.K == "sched" && err == nil && len(res.Nodes) > 0 {
+			node := res.Nodes[pick(len(res.Nodes), op.C)]
+			res.BeforeBind = w.Snap()
+			res.Err = w.Plugin.Bind(bindArgs(p, node))
+			res.BoundNow = res.Err == nil && p.Bound
+			w.mu.Lock()
+			p.Filtered = nil // a filter result is consumed by one bind attempt; the scheduler filters again before retrying
+			w.mu.Unlock()
+			res.Info += " bind=" + node
+		}
+	}
+}
+
+func (x *Exec) opClosure2(op Op, res *OpResult) (string, func()) {
+	w := x.W
+	switch op.K {
 	case "bind":
 		cands := x.existingPods(func(p *PodRec) bool { return !p.Bound && p.Live() && len(p.Filtered) > 0 })
 		if len(cands) == 0 {
@@ -501,7 +531,8 @@ func (x *Exec) opClosure(op Op, res *OpResult) (string, func()) {
 				w.mu.Unlock()
 			}
 		}
-	case "apirelease":
+	case "apirelease", "apireleasable":
+		// apireleasable: the administrator picks among the entries the list shows as releasable (their pod is gone)
 		return "apirelease", func() { x.apiRelease(op, res) }
 	case "poolapi":
 		if len(x.C.PoolObjs) == 0 {
@@ -573,6 +604,17 @@ func (x *Exec) apiRelease(op Op, res *OpResult) {
 			cands = append(cands, e)
 		}
 	}
+	if op.K == "apireleasable" {
+		var rel []api.FloatingIP
+		for _, e := range cands {
+			if e.Releasable {
+				rel = append(rel, e)
+			}
+		}
+		if len(rel) > 0 {
+			cands = rel
+		}
+	}
 	if len(cands) == 0 {
 		res.NoOp = true
 		return
@@ -588,7 +630,7 @@ func (x *Exec) apiRelease(op Op, res *OpResult) {
 func (x *Exec) harnessOp(op Op, res *OpResult) bool {
 	w := x.W
 	switch op.K {
-	case "create":
+	case "create", "createreused":
 		// construction over filtering: pick among the pod slots that do not exist right now
 		type slot struct {
 			wi   int
@@ -609,6 +651,18 @@ func (x *Exec) harnessOp(op Op, res *OpResult) bool {
 				if w.truthPod(n) == nil {
 					absent = append(absent, slot{wi, n})
 				}
+			}
+		}
+		if op.K == "createreused" {
+			// the controller re-creates a pod that existed before (statefulset / tapp pods keep their names)
+			var again []slot
+			for _, sl := range absent {
+				if w.Pods[sl.name] != nil {
+					again = append(again, sl)
+				}
+			}
+			if len(again) > 0 {
+				absent = again
 			}
 		}
 		if len(absent) == 0 {
@@ -803,6 +857,20 @@ func describe(op Op) string {
 	return s
 }
 
+// canonKind maps the variants of an operation kind (same galaxy-ipam entry point, different choice of the target) to the kind the
+// observers know.
+func canonKind(k string) string {
+	switch k {
+	case "newsched":
+		return "sched"
+	case "apireleasable":
+		return "apirelease"
+	case "createreused":
+		return "create"
+	}
+	return k
+}
+
 // Run executes the whole history; returns the first oracle failure.
 func (x *Exec) Run() *vcore.Failure {
 	for i, op := range x.C.Ops {
@@ -857,6 +925,7 @@ func (x *Exec) runOne(i int, op Op) *vcore.Failure {
 		x.Rec.Logf("%3d %-12s (no-op)", i, describe(op))
 		return nil
 	}
+	op.K = canonKind(op.K)
 	x.count("op:" + op.K)
 	x.logOp(i, op, res)
 	if res.Crashed {
@@ -1086,6 +1155,7 @@ func (x *Exec) episode(i int, op Op) *vcore.Failure {
 	}
 	for j, res := range results {
 		res.Concurrent = len(results) >= 2
+		subs[j].K = canonKind(subs[j].K)
 		x.logOp(i, subs[j], res)
 		for _, o := range x.Obs {
 			if f := o.AfterOp(x, i, subs[j], res); f != nil {
